@@ -887,16 +887,16 @@ func C20(tier string) int {
 		samples = append(samples, map[string]any{"case": i, "request": cases[i].Label})
 	}
 	run.Coverage = map[string]any{
-		"evaluations":         done,
-		"distinct_nontrivial": len(perRPC),
-		"rule":                "for every RPC of Signer, Lister, AccountManager and WalletManager (as an authorised client) and of the key-generation service (as a non-peer, and Prepare as a peer): the default well-formed message and every message with one field off default (two in thorough): bytes absent / present with length 0 (hand-encoded) / 1,3,4,31,32,33,48,96,4096; numbers 0,1,2^31,2^32-1,2^63,2^64-1; sub-messages absent; names empty, unknown, without slash, leading slash, regular-expression metacharacters alone and in pairs (^ $ ^$ [ \\ * (? |), 80 kB; batches of 0,1,2,65,1000 entries incl. an empty entry; each marshalled, decoded by the real protobuf library and handed to the real handler in a worker process under a 16 GiB address-space limit; after each case an ordinary signing request must be answered; plus, on three real instances that talk over the real gRPC transport (real API servers and real sender on loopback addresses, own certificate authority), five kinds of failing distributed-generation requests sent 40 times in a row each, after which an ordinary generation started on each instance must be answered; distinct = RPCs exercised",
-		"samples":             samples,
-		"exhaustive":          from >= len(cases),
-		"cases":               len(cases),
-		"cases_done":          done,
-		"statuses":            statuses,
-		"per_rpc":             perRPC,
-		"worker_deaths":       crashes,
+		"evaluations":                            done,
+		"distinct_nontrivial":                    len(perRPC),
+		"rule":                                   "for every RPC of Signer, Lister, AccountManager and WalletManager (as an authorised client) and of the key-generation service (as a non-peer, and Prepare as a peer): the default well-formed message and every message with one field off default (two in thorough): bytes absent / present with length 0 (hand-encoded) / 1,3,4,31,32,33,48,96,4096; numbers 0,1,2^31,2^32-1,2^63,2^64-1; sub-messages absent; names empty, unknown, without slash, leading slash, regular-expression metacharacters alone and in pairs (^ $ ^$ [ \\ * (? |), 80 kB; batches of 0,1,2,65,1000 entries incl. an empty entry; each marshalled, decoded by the real protobuf library and handed to the real handler in a worker process under a 16 GiB address-space limit; after each case an ordinary signing request must be answered; plus, on three real instances that talk over the real gRPC transport (real API servers and real sender on loopback addresses, own certificate authority), five kinds of failing distributed-generation requests sent 40 times in a row each, after which an ordinary generation started on each instance must be answered; distinct = RPCs exercised",
+		"samples":                                samples,
+		"exhaustive":                             from >= len(cases),
+		"cases":                                  len(cases),
+		"cases_done":                             done,
+		"statuses":                               statuses,
+		"per_rpc":                                perRPC,
+		"worker_deaths":                          crashes,
 		"repeated_failing_generations_over_grpc": repeat,
 	}
 	run.Assumptions = []string{"client-facing handlers are driven after a protobuf encode/decode round trip, not through a gRPC connection (framing and size limits of the transport are not exercised); the instance-to-instance transport is real in the repeat phase", "16 GiB address-space limit for the worker"}
